@@ -35,6 +35,7 @@ func run(c *Ctx) {
 	codecCases(c, im, cf)
 	framerCases(c, im, cf)
 	meshCases(c, im, cf)
+	sameNodeBufferReuse(c, im)
 	Must(cf.Write())
 	Must(im.Write(c.Out))
 	fmt.Printf("C02: %d evaluations, %d violations, %d coq cases\n", im.Evaluations, len(im.Violations), len(cf.Cases))
